@@ -176,6 +176,24 @@ func VerifC14Step() {
 			}
 		}
 	}
+	// weights: a successful SetStoreWeight is served and reloads from storage; a failed one
+	// leaves the served weights (the defaults of NewStoreInfo) untouched
+	if op == 5 {
+		if s := rc.GetStore(target); s != nil {
+			if err == nil {
+				v.Assert("weight-served", s.GetLeaderWeight() == 2 && s.GetRegionWeight() == 3)
+				lerr := rc.storage.LoadStores(func(ls *core.StoreInfo) {
+					if ls.GetID() == target {
+						v.Assert("weight-stored-equals-served", ls.GetLeaderWeight() == 2 && ls.GetRegionWeight() == 3)
+						v.Reach("weight-reloaded")
+					}
+				})
+				v.Assert("weight-load-ok", lerr == nil)
+			} else {
+				v.Assert("failed-weight-keeps-served", s.GetLeaderWeight() == 1 && s.GetRegionWeight() == 1)
+			}
+		}
+	}
 	if err == nil {
 		v.Reach("op-ok")
 	} else {
